@@ -17,11 +17,15 @@ Close Scope N_scope.
         server mode {GMSSL, auto, TLS} x client kind {GM, TLS 1.0, 1.1, 1.2} x 11 client suite lists x 6 server
         suite lists (drawn from the generated tables: nil, single suites, both orders, ECDHE-SM2, ECDSA-only,
         TLS 1.2-only, mixed) x server preference x ClientAuth (5) x client certificate {none, trusted, forged
-        issuer} x certificates {static, callbacks} x tickets {on, off}                       (95 040 in all)
+        issuer} x certificates {static, callbacks} x tickets {on, off} x ClientCAs {holds the CAs, empty}
+                                                                                              (190 080 in all)
       running the client model against the server model over a faithful channel either completes on both
       sides - with the same version, suite, master-secret term, exported-keying-material term, key-block
       term, and each side reporting the other's certificates - or fails on both sides; it completes exactly
-      when policy_allows.  No run blocks, none completes on one side only. *)
+      when policy_allows.  No run blocks, none completes on one side only.  When it completes, a second and a
+      third connection from the same client session cache (connection model of Resume/ResumeModel.v) complete
+      with the same version, suite and peer identities - with tickets on as resumptions carrying the first
+      connection's master secret, with tickets off as full handshakes (reconnect_ok). *)
 Theorem C06_honest_run_agrees :
   forall a, in_product a ->
     match honest_run a with
@@ -30,6 +34,7 @@ Theorem C06_honest_run_agrees :
       /\ res_vers rc = res_vers rs /\ res_suite rc = res_suite rs
       /\ res_ms rc = res_ms rs /\ res_ekm rc = res_ekm rs /\ res_keys rc = res_keys rs
       /\ res_peer rc = expected_server_certs a /\ res_peer rs = expected_client_certs a
+      /\ reconnect_ok a rc = true
     | (Errored, Errored) => policy_allows a = false
     | _ => False
     end.
@@ -122,11 +127,11 @@ Print Assumptions C06_key_derivation.
 
 (* ---------- non-vacuity ---------------------------------------------------------------------------- *)
 Open Scope N_scope.
-(* the product contains completing and failing configurations (5 632 of 95 040 are allowed) *)
-Example C06_product_size : count (fun _ => true) = 95040 /\ count policy_allows = 5632.
+(* the product contains completing and failing configurations (10 240 of 190 080 are allowed) *)
+Example C06_product_size : count (fun _ => true) = 190080 /\ count policy_allows = 10240.
 Proof. exact product_size. Qed.
 
-Definition ex_gm_cbc : acfg := mkA SGM CG (Some [0xe013]) None false 4 1 false true.
+Definition ex_gm_cbc : acfg := mkA SGM CG (Some [0xe013]) None false 4 1 false true true.
 Example C06_run_example_gm :
   in_product ex_gm_cbc /\
   match honest_run ex_gm_cbc with
@@ -138,8 +143,8 @@ Proof. vm_compute. intuition. Qed.
 
 (* ECDHE-SM2 only: fails on both sides; ECDHE-SM2 listed before ECC: ECC is negotiated *)
 Example C06_run_example_ecdhe :
-  honest_run (mkA SAuto CG (Some [0xe011; 0xe051]) None false 0 0 true false) = (Errored, Errored)
-  /\ match honest_run (mkA SAuto CG (Some [0xe011; 0xe013]) None false 0 0 true false) with
+  honest_run (mkA SAuto CG (Some [0xe011; 0xe051]) None false 0 0 true false true) = (Errored, Errored)
+  /\ match honest_run (mkA SAuto CG (Some [0xe011; 0xe013]) None false 0 0 true false true) with
      | (Done rc, Done rs) => res_suite rc = 0xe013 /\ res_suite rs = 0xe013
      | _ => False
      end.
@@ -147,12 +152,12 @@ Proof. vm_compute. intuition. Qed.
 
 (* TLS 1.2 ECDHE-RSA with the auto-switch server, TLS 1.0 RSA with the TLS server *)
 Example C06_run_example_tls :
-  match honest_run (mkA SAuto (CT 0x0303) (Some [0xc02f; 0x009c]) None false 1 2 true true) with
+  match honest_run (mkA SAuto (CT 0x0303) (Some [0xc02f; 0x009c]) None false 1 2 true true true) with
   | (Done rc, Done rs) => res_vers rc = 0x0303 /\ res_suite rc = 0xc02f /\ res_peer rc = [13] /\ res_peer rs = [4]
                           /\ res_ms rs = TPrf (TDh 3 4) 1 (SRands 1 2)
   | _ => False
   end
-  /\ match honest_run (mkA STLS (CT 0x0301) None None true 0 0 false false) with
+  /\ match honest_run (mkA STLS (CT 0x0301) None None true 0 0 false false true) with
      | (Done rc, Done rs) => res_vers rc = 0x0301 /\ res_suite rc = res_suite rs
      | _ => False
      end.
@@ -168,6 +173,18 @@ Example C06_app_data_example :
   | _ => False
   end.
 Proof. vm_compute. split; reflexivity. Qed.
+
+(* client certificates: verify-if-given rejects the forged issuer and, against an empty ClientCAs pool, the
+   CA-issued certificate as well; request-only accepts both; tickets on: the reconnections are resumptions *)
+Example C06_run_example_client_auth :
+  honest_run (mkA SGM CG None None false 3 2 false true true) = (Errored, Errored)
+  /\ honest_run (mkA SGM CG None None false 3 1 false true false) = (Errored, Errored)
+  /\ match honest_run (mkA SGM CG None None false 1 1 false true false) with
+     | (Done rc, Done rs) => res_peer rs = [1] /\ reconnect_ok (mkA SGM CG None None false 1 1 false true false) rc = true
+     | _ => False
+     end
+  /\ map (@r_cls term_tag) (reconnect_log (mkA SGM CG None None false 1 1 false true false)) = [Full; Resumed; Resumed].
+Proof. vm_compute. intuition. Qed.
 
 Example C06_key_slices_example :
   key_slices [1;2;3;4;5;6;7;8;9;10;11;12] 1 2 3 = ([1], [2], [3;4], [5;6], [7;8;9], [10;11;12]).
